@@ -3,7 +3,10 @@ package checks
 import (
 	"bytes"
 	"fmt"
+	"os"
+	"os/exec"
 	"reflect"
+	"strconv"
 	"sort"
 	"strings"
 
@@ -30,7 +33,82 @@ import (
 // Part B (beyond the limit): for every probe and every limit L < len the bytes
 // beyond L are replaced by five fillers — same answer; the caller's buffer and
 // 64 bytes of spare capacity are unchanged after Detect.
-func init() { Registry["C04"] = &Check{Setup: c04Setup, Run: c04Run} }
+func init() {
+	Registry["C04"] = &Check{Setup: c04Setup, Run: c04Run}
+	subs["c04fresh"] = c04FreshChild
+}
+
+var c04PairLimits = []uint32{0, 3072, 8}
+
+// c04FreshChild: args = witness index; prints the answers of a process whose
+// very first detections these are (truly pristine: no pools, caches or other
+// cross-call state can have been touched), one line per (limit, entry point).
+func c04FreshChild(c *core.Ctx, args []string) int {
+	W := corpus(c)
+	for _, a := range args {
+		i, _ := strconv.Atoi(a)
+		if i < 0 || i >= len(W) {
+			return 2
+		}
+		for _, l := range c04PairLimits {
+			mimetype.SetLimit(l)
+			fmt.Println(chainStr(mimetype.Detect(append([]byte{}, W[i].Data...))))
+			m, err := mimetype.DetectReader(bytes.NewReader(W[i].Data))
+			fmt.Println(chainStr(m), err)
+		}
+	}
+	return 0
+}
+
+var c04FreshCache = map[int][]string{}
+
+func c04FreshAnswers(c *core.Ctx, j int) []string {
+	if a, ok := c04FreshCache[j]; ok {
+		return a
+	}
+	self, _ := os.Executable()
+	out, err := exec.Command(self, "C04", "--sub", "c04fresh", "--home", c.Home, "--repo", c.Repo, "--", strconv.Itoa(j)).Output()
+	var a []string
+	if err == nil {
+		a = strings.Split(strings.TrimSpace(string(out)), "\n")
+	}
+	c04FreshCache[j] = a
+	return a
+}
+
+// c04PairEval: Ints = [i, j]: detect witness i (all limits, both entry points),
+// then witness j must answer exactly as a fresh process answers.
+func c04PairEval(cs *core.Case) (bool, string, string) {
+	W := corpus(c04ctx)
+	i, j := cs.Ints[0], cs.Ints[1]
+	want := c04FreshAnswers(c04ctx, j)
+	if len(want) != 2*len(c04PairLimits) {
+		return true, "skip-no-fresh-answers", ""
+	}
+	for _, l := range c04PairLimits {
+		setLimit(l)
+		mimetype.Detect(append([]byte{}, W[i].Data...))
+		mimetype.DetectReader(bytes.NewReader(W[i].Data))
+	}
+	k := 0
+	for _, l := range c04PairLimits {
+		setLimit(l)
+		got := chainStr(mimetype.Detect(append([]byte{}, W[j].Data...)))
+		if got != want[k] {
+			return false, "C04/earlier-detection-changes-answer/" + strings.SplitN(want[k], "(", 2)[0], fmt.Sprintf("after detecting witness %q, Detect(%q, limit %d) = %s; a fresh process answers %s", W[i].Name, W[j].Name, l, got, want[k])
+		}
+		k++
+		m, err := mimetype.DetectReader(bytes.NewReader(W[j].Data))
+		got = fmt.Sprint(chainStr(m), " ", err)
+		if got != want[k] {
+			return false, "C04/earlier-detection-changes-answer/reader/" + strings.SplitN(want[k], "(", 2)[0], fmt.Sprintf("after detecting witness %q, DetectReader(%q, limit %d) = %s; a fresh process answers %s", W[i].Name, W[j].Name, l, got, want[k])
+		}
+		k++
+	}
+	return true, "", ""
+}
+
+var c04ctx *core.Ctx
 
 // seqHooks: single-goroutine scheduler hooks; only Pool.Get is a choice.
 type seqHooks struct{ x *explore.Exec }
@@ -307,6 +385,8 @@ func c04BufEval(cs *core.Case) (bool, string, string) {
 }
 
 func c04Setup(c *core.Ctx) {
+	c04ctx = c
+	c.Register("c04pair", c04PairEval)
 	c.Register("c04", c04Eval)
 	c.Register("c04beyond", c04BeyondEval)
 	c.Register("c04buf", c04BufEval)
@@ -427,6 +507,30 @@ func c04Run(c *core.Ctx) {
 		c.Note("bfs-depth-bound-reached-before-fixpoint", 1)
 	}
 
+	// Part H2: every ordered pair of witnesses: detecting i must not change what j
+	// answers, where the reference answers come from a fresh process per witness
+	{
+		W := corpus(c)
+		pc := &core.Case{Kind: "c04pair", Ints: []int{0, 0}}
+		var pairs uint64
+		for j := range W {
+			if len(W[j].Data) > 1<<16 || !c.Next() || c.Expired() {
+				continue
+			}
+			for i := range W {
+				if len(W[i].Data) > 1<<16 {
+					continue
+				}
+				pc.Ints[0], pc.Ints[1] = i, j
+				c.R.Evals++
+				c.R.Transitions++
+				c.R.Nontrivial++
+				pairs++
+				c.Check(pc)
+			}
+		}
+		c.Note("witness-pairs-against-fresh-process-answers", pairs)
+	}
 	// Part B
 	bc := &core.Case{Kind: "c04beyond", Ints: []int{0}}
 	buf := &core.Case{Kind: "c04buf"}
